@@ -193,9 +193,19 @@ def run(rep, pid, feats, n, findings, rule, gover="1.21", tapes=3, histlen=10, b
     if ents:
         sw = C.workdir(pid + "st")
         try:
-            smism = structcheck.compare(sw, ents)
+            smism, hyps = structcheck.compare(sw, ents)
         finally:
             C.rmtree(sw)
+        # the computable side conditions of the C01 theorem (coq/Side.v) on every generated program
+        names = {0: "model_rejects", 1: "model_output_not_legal", 2: "legal_but_outside_proved_fragment", 3: "within_C01_theorem"}
+        cnt = {v: 0 for v in names.values()}
+        for h in hyps:
+            cnt[names[h]] += 1
+        rep.coverage["theorem_side_conditions"] = cnt
+        rep.coverage["legal_per_model_but_go_rejects_output"] = sum(
+            1 for e, h in zip(ents, hyps) if h >= 2 and e[2][0] == "tree" and R["status"].get(e[0], "ok") != "ok")
+        rep.coverage["go_accepts_output_but_not_legal_per_model"] = sum(
+            1 for e, h in zip(ents, hyps) if h == 1 and e[2][0] == "tree" and R["status"].get(e[0], "ok") == "ok")
     rep.coverage["structural_mismatches"] = len(smism)
     if smism and not unexplained:
         idx, code = smism[0]
